@@ -91,6 +91,7 @@ class Ctx:
         self.fresh_refs = []       # refs of SMT objects/lists allocated on this path
         self.no_branch = 0
         self.merge_fresh = set()
+        self.entry_addr = None     # concrete-heap addresses below this existed at function entry (frame conditions)
         self.base_len = None       # length of pc after requires/definitions: facts before it survive loop cuts
         self.literals = set()
         self.subst = []
@@ -284,6 +285,11 @@ class Ctx:
 
     def cell(self, ref):
         return self.cheap[ref.addr]
+
+    def cell_write(self, addr, what, node):
+        """a store into a concrete-heap object/list/dict that existed when the verified function was entered"""
+        if self.entry_addr is not None and addr < self.entry_addr:
+            self.written.append(("cell", addr, what, node))
 
     def mutating(self, ref=None):
         if self.no_branch and not (ref is not None and ref.get_id() in self.merge_fresh):
